@@ -4,10 +4,14 @@ package harness
 // in the same canonical form.
 
 import (
+	"encoding/json"
 	"fmt"
+	"os"
+	"runtime/debug"
 	"sort"
 	"strconv"
 	"strings"
+	"time"
 
 	"github.com/blevesearch/bleve/v2"
 	"github.com/blevesearch/bleve/v2/document"
@@ -223,3 +227,49 @@ func (o *Observed) DiffObserved(p *Observed) string {
 	}
 	return ""
 }
+
+// SearchWatchdog runs a search and reports non-termination (10 s is more than
+// 10^4 times the normal cost on these corpora) as an error instead of hanging
+// the whole run.  The stuck goroutine is abandoned.
+func SearchWatchdog(idx bleve.Index, req *bleve.SearchRequest) (*bleve.SearchResult, error) {
+	type out struct {
+		res *bleve.SearchResult
+		err error
+	}
+	ch := make(chan out, 1)
+	go func() {
+		defer func() {
+			if p := recover(); p != nil {
+				ch <- out{nil, fmt.Errorf("search panicked: %v\n%s", p, debug.Stack())}
+			}
+		}()
+		res, err := idx.Search(req)
+		ch <- out{res, err}
+	}()
+	select {
+	case o := <-ch:
+		return o.res, o.err
+	case <-time.After(searchWatchdogLimit):
+		// A stuck search keeps running (and often allocating) in its abandoned goroutine,
+		// so the case cannot be shrunk: report it and stop the process.
+		b, _ := req.Query.(json.Marshaler).MarshalJSON()
+		FatalNoShrink(fmt.Sprintf("search did not return within %v (non-termination): query %s", searchWatchdogLimit, b))
+		return nil, fmt.Errorf("unreachable")
+	}
+}
+
+// FatalNoShrink reports a violation that must not be re-executed (hung or
+// memory-eating code under test), flushes the evidence and exits non-zero.
+func FatalNoShrink(msg string) {
+	fmt.Printf("VERIF-VIOLATION (not shrinkable): %s\n", msg)
+	if ctxDump != nil {
+		fmt.Printf("context: %s\n", ctxDump())
+	}
+	flushEvidence()
+	os.Exit(1)
+}
+
+// ctxDump, when set by the running property, describes the current case.
+var ctxDump func() string
+
+var searchWatchdogLimit = 10 * time.Second
